@@ -343,7 +343,7 @@ func init() {
 		aliasEntries = append(aliasEntries,
 			aliasEntry{"Set." + op + "/mutate-result", func(size, pos int) (string, string, bool) {
 				S := col.Set[int](n)
-				a, b := S.MakeFromArray(intsN(size)), S.MakeFromArray(intsN(size+1)[1:])
+				a, b := S.MakeFromArray(intsN(size)), S.MakeFromArray(intsN(size + 1)[1:])
 				r := apply(a, b)
 				before := fmt.Sprint(a.AsArray(), b.AsArray())
 				w := mutateIntColl(r, pos)
@@ -365,7 +365,7 @@ func init() {
 			}},
 			aliasEntry{"Set." + op + "/mutate-operand", func(size, pos int) (string, string, bool) {
 				S := col.Set[int](n)
-				a, b := S.MakeFromArray(intsN(size)), S.MakeFromArray(intsN(size+1)[1:])
+				a, b := S.MakeFromArray(intsN(size)), S.MakeFromArray(intsN(size + 1)[1:])
 				r := apply(a, b)
 				before := fmt.Sprint(r.AsArray())
 				w := mutateIntColl(a, pos)
